@@ -83,7 +83,7 @@ func decodeBody(r *HTTPReq) (map[SeriesKey]*Obs, int) {
 
 func (c15) Run(e *Env) {
 	e.ProbeDecl("dispatcher-parked-across-flush-begin", "retry-after-5xx", "retry-after-conn-error", "retry-after-lost-response", "abandoned-after-window", "abandoned-retries-off",
-		"slow-response-client-timeout", "several-bodies-per-flush", "max-requests-saturated", "manual-flush", "ticker-flush", "flush-parked-after-drain", "4xx", "non-utf8-string", "header-tag-repeated", "pipelined-manual-flush", "shutdown-with-data-pending", "shutdown-with-retry-pending")
+		"slow-response-client-timeout", "several-bodies-per-flush", "max-requests-saturated", "manual-flush", "ticker-flush", "flush-parked-after-drain", "4xx", "non-utf8-string", "header-tag-repeated", "pipelined-manual-flush", "shutdown-with-data-pending", "shutdown-with-retry-pending", "response-body-cut-after-2xx")
 	slots := e.Range(1, 4)
 	maxReq := e.Range(1, 4)
 	concMerge := e.Range(1, 3)
@@ -619,6 +619,12 @@ func (c15) Run(e *Env) {
 			case 0:
 				out = HTTPOutcome{Kind: "serve"}
 				b.success = true
+				if e.Chance(1, 6) {
+					// accepted (2xx status and headers arrive), then the connection breaks inside the response body
+					out.BrokenResponseBody = true
+					e.Fault("response-body-cut-after-2xx")
+					e.Probe("response-body-cut-after-2xx")
+				}
 			case 1:
 				out = HTTPOutcome{Kind: "status", Status: []int{400, 404, 413}[e.Draw(3)]}
 				e.Fault("http-4xx")
